@@ -280,3 +280,9 @@ def loop_stmt(section):
     while isinstance(s, L.ForRange):
         s = s.body.statements[0]
     return s.expr
+
+
+def is_form_argument(t):
+    import ufl
+
+    return isinstance(t, ufl.classes.FormArgument)
